@@ -492,6 +492,33 @@ func runC01(c *Ctx, r *Report) {
 
 	// ---- R6 ----
 	c.checkCapturedOutput(r)
+
+	// shared C12.R1/R2: <, <=, >, >= are thresholds on object.Cmp, which must be three-valued
+	r.Rule("C12.R1", "(shared) the comparison operators threshold object.Cmp by predicates with the expected truth sets on {-1,0,1}")
+	r.Rule("C12.R2", "(shared) object.Cmp returns only -1, 0 or 1 (the operators test == 1 / == -1)")
+	{
+		sub := NewReport("C12", r.Tier, c)
+		sub.Sub = true
+		runC12(c, sub)
+		n := 0
+		for _, o := range sub.Obls {
+			if o.Rule != "C12.R1" && o.Rule != "C12.R2" {
+				continue
+			}
+			n++
+			switch o.status {
+			case FAIL:
+				r.Fail(o.Rule, o.Func, o.Desc, o.Pos, o.Reason)
+			case ABSTAIN:
+				r.Abstain(o.Rule, o.Func, o.Desc, o.Pos, o.Reason)
+			default:
+				r.Ok(o.Rule, o.Func, o.Desc, o.Pos)
+			}
+		}
+		if n < 20 {
+			r.Undecided("C01: only %d shared C12.R1/R2 obligations", n)
+		}
+	}
 }
 
 // checkCapturedOutput: a function that points State.Out at a local buffer owes the captured bytes to
